@@ -37,6 +37,15 @@ def shuffle(x):
     ctx.rng_log.append(rec)
     if n <= 1:
         return
+    pre = getattr(ctx, "shuffle_concrete", None)
+    if pre is not None:
+        perm = pre(ctx, orig, rec)  # harness-declared concrete ordering(s) for very long lists (forked by the harness itself)
+        if perm is not None:
+            new = [orig[j] for j in perm]
+            x[:] = new
+            rec["perm"] = list(perm)
+            rec["result"] = new
+            return
     rec["names"] = [f"{stem}.p{j}" for j in range(n)]
     ps = [ctx.int(nm, 0, n - 1) for nm in rec["names"]]
     if ctx.mode == "sym":
